@@ -140,16 +140,16 @@ theorem fin_ok {compat} {k : Nat} {s0 : Stream} {mol : Mol} {rings : List RingRe
       match __x with
         | (s', n) => pure ({ stream := s', mol := mol, rings := rings }, n) : Py (DState × Nat))
       = .ok r) : r.1.mol = mol ∧ r.1.rings = rings := by
-  obtain ⟨⟨s', n⟩, _, h2⟩ := bind_ok h
+  obtain ⟨⟨s', n⟩, _, h2⟩ := bind_okD h
   cases h2
   exact ⟨rfl, rfl⟩
 
--- `bind_ok` on hypothesis `h`, replacing it
+-- `bind_okD` on hypothesis `h`, replacing it
 open Lean.Parser.Tactic in
 syntax "bind_at " ident " with " rcasesPatMed : tactic
 macro_rules
   | `(tactic| bind_at $h with $pat) =>
-    `(tactic| (have h2 := bind_ok $h; clear $h; obtain $pat := h2))
+    `(tactic| (have h2 := bind_okD $h; clear $h; obtain $pat := h2))
 
 def Good (T : Table) (st : DState) (s : Nat) (prev : Option Nat) (st' : DState) : Prop :=
   DInv T st'.mol ∧ RingsOK st'.rings ∧ Frame st.mol st'.mol s prev
